@@ -136,9 +136,11 @@ fn args(rng: &mut Rng, xs: &[&str]) -> String {
 }
 
 // (labels that differ only in letter case, or that extend one another, are distinct labels)
-const NAMES: [&str; 16] = ["p", "q", "r", "P", "Q", "u", "m", "p0", "P0", "Q1", "a1", "b2", "xx", "xX", "k9", "z"];
-const CNAMES: [&str; 5] = ["c", "C", "c2", "K", "w"];
-const ANAMES: [&str; 5] = ["e", "E", "g2", "H", "e2"];
+// (labels that begin with a keyword of the format - point1, arcade, circles - or that look like a
+// component or suffix name - x, y, a, b, center, radius - are ordinary labels too)
+const NAMES: [&str; 27] = ["p", "q", "r", "P", "Q", "u", "m", "p0", "P0", "Q1", "a1", "b2", "xx", "xX", "k9", "z", "point1", "arcade", "circles", "pointA", "x", "y", "a", "b", "center", "radius", "sqrt"];
+const CNAMES: [&str; 8] = ["c", "C", "c2", "K", "w", "circleA", "arc2", "pointy"];
+const ANAMES: [&str; 8] = ["e", "E", "g2", "H", "e2", "arc1", "pointer", "circ"];
 
 /// A valid problem: 0..6 points, 0..3 circles, 0..3 arcs, 1..20 instructions.
 pub fn gen_valid(rng: &mut Rng) -> GenProblem {
